@@ -13,6 +13,22 @@ def user_space_rejects(rep):
         raise AnalysisError('anchor: the leading-underscore check vanished from translator.py')
 
 
+def keyword_capture(tree, functions, user_kw):
+    """call sites in a module that pass user keyword names (explicitly or by ** spread) as Python
+    keywords to a module-level function -> (caller, callee, callee's named parameters, those in
+    the user identifier space)"""
+    tops = {n.name: n for n in tree.body if isinstance(n, ast.FunctionDef)}
+    for fname, fn in functions.items():
+        for c in ast.walk(fn):
+            if not (isinstance(c, ast.Call) and c.keywords and isinstance(c.func, ast.Name) and c.func.id in tops):
+                continue
+            if not (any(k.arg is None for k in c.keywords) or any(k.arg in user_kw for k in c.keywords)):
+                continue
+            callee = tops[c.func.id]
+            named = [a.arg for a in callee.args.args + callee.args.kwonlyargs]
+            yield fname, c.func.id, named, [a for a in named if not a.startswith('_')]
+
+
 def _strings(x):
     if isinstance(x, str):
         yield x
@@ -92,6 +108,8 @@ def run(rep, tier):
         ('NAME-temporary', 'temporaries sharing a scope with user names start with an underscore'),
         ('NAME-bare-read', 'emitted code and runtime read no global/builtin by a bare name a user may define'),
         ('NAME-class-body', 'generated class bodies reserve no user-space names'),
+        ('NAME-keyword-capture', 'user keyword names are never passed as Python keywords to a function with '
+                                 'user-space parameter names of its own'),
         ('INTERCEPT-table', 'no user-space name is intercepted before user templates'),
     ]:
         rep.rule(rid, txt)
@@ -158,6 +176,33 @@ def run(rep, tier):
                         f'class named `{name}` rebinds it for the whole module, a field / let variable / parameter '
                         f'named `{name}` shadows it inside its rule function',
                         'sourcer/translator.py templates + sourcer/expressions emission'))
+    # (ii-b) user keyword names (keyword arguments of template calls) handed to a callee as Python
+    # keywords: the callee's own parameter names must lie outside the user identifier space
+    nkw = 0
+    for m in mods:
+        if not isinstance(m, modroute.Emitted):
+            continue
+        user_kw = {o.d.get('name') for o in routes.walk_objs(getattr(m, 'body', []) or [])
+                   if o.cls.name == 'KeywordArg'}
+        for fname, callee, named, clash in keyword_capture(m.tree, m.functions, user_kw):
+            nkw += 1
+            rep.oblige(not clash)
+            if clash:
+                rep.add(Finding('NAME-keyword-capture', callee, ','.join(clash),
+                                f'{fname} hands user keyword names to {callee}({", ".join(named)}...) as Python '
+                                f'keywords: a template parameter named `{clash[0]}` collides with the callee\'s own '
+                                f'parameter (TypeError: multiple values for argument)',
+                                f'emitted module of route {m.label}: {fname}'))
+    # positive control: a synthetic module that binds arguments through a helper with a user-space name
+    ctl = ast.parse('def _bind(func, *args, **kwargs):\n    return (func, args, kwargs)\n'
+                    'def _try_T(_text, _pos):\n    f = _bind(_try_T, 1, p=2)\n    yield f\n')
+    hits = [c for c in keyword_capture(ctl, load.functions_of(ctl), {'p'}) if c[3]]
+    rep.count('positive controls evaluated')
+    if not hits:
+        rep.error('positive control silent: NAME-keyword-capture did not flag _bind(func, *args, **kwargs)')
+    rep.count('call sites that spread user keyword names into a module function', nkw)
+    # the one sanctioned spread: _ParseFunction.__call__ -> rule function, whose own parameters are
+    # the underscore-prefixed convention prefix (checked by CONV-prefix / ADAPTOR under C06)
     # (iii) class bodies: the generated __init__(self, <fields>) and the class attributes
     reserved = set()
     for m in mods:
